@@ -153,10 +153,13 @@ impl Ledger {
         };
         match result {
             Err(p) => {
+                // file + message class (digits stripped): stable under line shifts
+                let file = p.site().rsplit_once(':').map(|(f, _)| f.to_string()).unwrap_or_else(|| p.site());
                 let sig = if p.message.contains("Locked fee does not cover transaction cost") {
-                    format!("execute-panic:locked-fee-does-not-cover-cost@{}", p.site())
+                    format!("execute-panic:locked-fee-does-not-cover-cost@{file}")
                 } else {
-                    format!("execute-panic@{}", p.site())
+                    let msg: String = p.message.chars().filter(|c| !c.is_ascii_digit()).take(60).collect();
+                    format!("execute-panic@{file}:{}", msg.replace(' ', "_"))
                 };
                 shard.count("tx:panicked");
                 shard.violation_for("C11", sig, json!({"tx_label": meta.label, "tx": meta.description, "panic": p.summary()}));
